@@ -16,7 +16,7 @@ Python only renders, calls, projects and compares with ==.
 import json
 import warnings
 import pandas as pd
-from harness.x_series import (Registry, build_c, proj_c, outcome, collapse, leaves, nested_multi, index_of, NLEAVES)
+from harness.x_series import (Registry, build_c, proj_c, outcome, collapse, leaves, nested_multi, index_of, dict_class, NLEAVES)
 
 warnings.simplefilter('ignore')
 
@@ -167,6 +167,173 @@ def call_history(tree, dec, hist, form=0, rng=None, inforce=None):
     return o
 
 
+# ---- sessions: ONE heap of caller-owned objects, several calls and in-place edits (spec/SyncSess.tla) --------
+def build_heap(h, reg):
+    """the caller's objects: one pandas object per slot (slot j on the Index / columns OBJECTS of slot share[j]), the
+    container referring to them, the method object in the caller's spelling"""
+    import numpy as np
+    slots = []
+    for j, (x, sh) in enumerate(zip(h['ops'], h['share'])):
+        o = build_c(x, reg)
+        if sh - 1 != j:             # built on the index object of an earlier slot ("price * 2")
+            base = slots[sh - 1]
+            if x['k'] == 's':
+                o = pd.Series(o.values, index=base.index)
+            else:
+                o = pd.DataFrame(o[list(base.columns)].values, index=base.index, columns=base.columns)
+        slots.append(o)
+
+    def cont(x):
+        if x['k'] == 'r':
+            return slots[x['n'] - 1]
+        if x['k'] == 'l':
+            return [cont(i) for i in x['items']]
+        if x['k'] == 'd':
+            d = {}
+            for key, i in zip(x['keys'], x['items']):
+                d[key] = cont(i)
+            return d
+        return reg.obj(x['id'])
+    m = h['meth']
+    meth = None if m['ty'] == 'none' else m['v'][0] if m['ty'] == 'str' else list(m['v']) if m['ty'] == 'list' else tuple(m['v'])
+    return slots, cont(h['cont']), meth
+
+
+def proj_heap(slots, cont, meth, reg):
+    def pc(o):
+        for j, s in enumerate(slots):
+            if o is s:
+                return {'k': 'r', 'n': j + 1}
+        if reg.ident(o) is not None:
+            return proj_c(o, reg)
+        if isinstance(o, dict):
+            return {'k': 'd', 'cls': dict_class(o), 'keys': [str(k) for k in o.keys()], 'items': [pc(i) for i in o.values()]}
+        if isinstance(o, list):
+            return {'k': 'l', 'items': [pc(i) for i in o]}
+        return proj_c(o, reg)
+    ty = 'none' if meth is None else 'str' if isinstance(meth, str) else 'list' if isinstance(meth, list) else 'tuple' if isinstance(meth, tuple) else 'other'
+    v = [] if meth is None else [meth] if isinstance(meth, str) else [x if isinstance(x, str) else repr(x) for x in meth]
+    return {'ops': [proj_c(s) for s in slots], 'cont': pc(cont), 'meth': {'ty': ty, 'v': v}}
+
+
+def call_session(h, steps, form=0, final=None):
+    """a session replayed on ONE heap -> one observation: outcome and heap after every step"""
+    import pyg_base as pg
+    reg = Registry()
+    slots, cont, meth = build_heap(h, reg)
+    is_list = h['cont']['k'] == 'l'
+    calls, rec_pos, rec_kw, rec_var = recorders()
+    spell = lambda how: SPELL[how][form % 3]
+    pres, last, out_steps = None, None, []
+    for n, st in enumerate(steps):
+        op, out = st['op'], None
+        if op == 'call':
+            api, how, cols = st['api'], st['pol']['how'], st['cols']['how']
+            kwm = (form + n) % 2 == 1               # the method object positionally / by keyword
+            if how == 'ex':                         # the explicit index is one of the caller's own timeseries (or its Index object)
+                ts = slots[st['pol']['slot'] - 1]
+                join = ts if (form + n) % 3 else ts.index
+            else:
+                join = spell(how)
+            if api == 'sync':
+                err, res = outcome((lambda: pg.df_sync(cont, join, method=meth, columns=spell(cols))) if kwm else (lambda: pg.df_sync(cont, join, meth, spell(cols))))
+            elif api == 'reindex':
+                err, res = outcome((lambda: pg.df_reindex(cont, join, method=meth)) if kwm else (lambda: pg.df_reindex(cont, join, meth)))
+            elif api == 'index':
+                err, res = outcome(lambda: pg.df_index(cont, join))
+            else:
+                # ONE presync-ed recorder per session, decorated with the policy of its first call and the caller's method
+                # object; later calls override what differs at call time (an explicit index is always given at call time)
+                if pres is None:
+                    var_kw = (not is_list) and form % 3 == 2
+                    pres = (pg.presync(rec_pos if is_list else rec_var if var_kw else rec_kw, index=join, method=meth, columns=spell(cols)), how, cols, var_kw)
+                f, how0, cols0, var_kw = pres
+                kw = {}
+                if how != how0 or how == 'ex':
+                    kw['join'] = join
+                if cols != cols0:
+                    kw['columns'] = spell(cols)
+                if kwm:
+                    kw['method'] = meth
+                del calls[:]
+                err, res = outcome((lambda: f(*cont, **kw)) if is_list else (lambda: f(**cont, **kw)))
+            if err is not None:
+                out = err
+            elif api == 'index':
+                if res is None:
+                    v = {'k': 'none'}
+                elif isinstance(res, pd.Index):
+                    p = proj_c(pd.Series(0.0, res))
+                    v = {'k': 'idx', 't': p['t']} if p['k'] == 's' else p
+                else:
+                    v = proj_c(res, reg)
+                out = {'kind': 'val', 'v': v}
+            elif api == 'presync':
+                got = []
+                for c in calls:
+                    if is_list:
+                        got.append({'k': 'l', 'items': [proj_c(c[POS[i]], reg) for i in range(len(cont))]})
+                    elif pres[3]:
+                        got.append({'k': 'd', 'cls': 'dict', 'keys': list(c.keys()), 'items': [proj_c(v, reg) for v in c.values()]})
+                    else:
+                        got.append({'k': 'd', 'cls': 'dict', 'keys': list(cont.keys()), 'items': [proj_c(c[k], reg) for k in cont.keys()]})
+                out = {'kind': 'calls', 'calls': got}
+            else:
+                out = {'kind': 'val', 'v': proj_c(res, reg)}
+                last = res
+        elif op == 'redate':
+            ts = slots[st['slot'] - 1]
+            ts.index = ts.index + pd.Timedelta(days=1)
+        elif op == 'append':
+            slots[st['slot'] - 1].loc[index_of([st['x']])[0]] = 99.0
+        elif op == 'drop':
+            ts = slots[st['slot'] - 1]
+            ts.drop(ts.index[st['p'] - 1], inplace=True)
+        elif op == 'setcell':
+            ts = slots[st['slot'] - 1]
+            if isinstance(ts, pd.Series):
+                ts.iloc[st['p'] - 1] = 77.0
+            else:
+                ts.iloc[st['p'] - 1, :] = 77.0
+        elif op == 'methset':
+            meth[0] = st['v']
+        elif op == 'methclear':
+            del meth[:]
+        elif op == 'contset':
+            key = st['p'] - 1 if is_list else list(cont.keys())[st['p'] - 1]
+            cont[key] = slots[st['n'] - 1]
+        elif op == 'resedit':
+            edit_result(last)
+        else:
+            raise ValueError(op)
+        rec = {'heap': proj_heap(slots, cont, meth, reg)}
+        if out is not None:
+            rec['out'] = out
+        out_steps.append(rec)
+    o = {'api': 'session', 'heap': h, 'steps': steps, 'form': form, 'out': {'kind': 'sess', 'steps': out_steps}}
+    if final is not None:
+        o['final'] = final          # the heap TLC's state machine ended with (evidence; Trace_Sync recomputes it)
+    return o
+
+
+def edit_result(res):
+    """the caller edits the result of a call through its public interface: every cell of every timeseries in it is
+    overwritten, then the first member of every container is replaced"""
+    if isinstance(res, (pd.Series, pd.DataFrame)):
+        if len(res):
+            res.iloc[:] = 55.0
+    elif isinstance(res, dict):
+        for v in res.values():
+            edit_result(v)
+        for k in list(res.keys())[:1]:
+            res[k] = None
+    elif isinstance(res, list):
+        for v in res:
+            edit_result(v)
+        if res:
+            res[0] = None
+
+
 def kind_of(tree):
     ks = {l['k'] for l in leaves(tree)}
     return 'frames' if 'f' in ks else 'series' if 's' in ks else 'arrays' if 'a' in ks else 'plain'
@@ -178,6 +345,15 @@ def nodes(x):
 
 def case_key(o, want=None):
     """the matchable description of a failing case"""
+    if o['api'] == 'session':
+        h, steps = o['heap'], o['steps']
+        cs = [st for st in steps if st['op'] == 'call']
+        places = [x['n'] if x['k'] == 'r' else 0 for x in leaves(h['cont'])]
+        return {'api': 'session', 'kind': 'frames' if any(x['k'] == 'f' for x in h['ops']) else 'series', 'apis': [c['api'] for c in cs],
+                'how': [c['pol']['how'] for c in cs], 'cols': [c['cols']['how'] for c in cs], 'edits': [st['op'] for st in steps if st['op'] != 'call'],
+                'method': h['meth'], 'method_spelling': h['meth']['ty'], 'share': h['share'], 'places': places, 'container': h['cont']['k'],
+                'nested': nested_multi(h['cont']), 'raised': next((st['out'].get('cls', '') for st in o['out']['steps'] if st.get('out', {}).get('kind') == 'exc'), ''),
+                'form': o['form'], 'empty_frame_filled': False, 'heap': h, 'steps': steps}
     tree = o['tree']
     if o['api'] == 'history':
         return {'api': 'history', 'kind': kind_of(tree), 'how': o['dec']['join'], 'method': o['dec']['m'], 'cols': o['dec']['cols'], 'nested': nested_multi(tree),
@@ -390,6 +566,17 @@ def s2c_histories(ctx, cases, budget):
     return obs
 
 
+def s2c_sessions(ctx, cases, budget):
+    """TLC's sessions replayed on one real heap each -> observations for Trace_Sync"""
+    cases = [json.loads(c) for c in sorted({json.dumps(c, sort_keys=True) for c in cases})]       # (simulated sessions may repeat)
+    if budget and len(cases) > budget:
+        cases = ctx.rng.sample(cases, budget)
+        ctx.exhaustive = False
+    obs = [call_session(c['heap'], c['steps'], form=n % 6, final=c['final']) for n, c in enumerate(cases)]
+    ctx.sample({'s2c_session': {'heap': obs[len(obs) // 2]['heap'], 'steps': obs[len(obs) // 2]['steps']}}, limit=8)
+    return obs
+
+
 def c2s(ctx, report, n, histories=()):
     obs = list(histories)
     for i in range(n):
@@ -421,14 +608,18 @@ def c2s(ctx, report, n, histories=()):
         if i % 6 == 1 and tree['k'] == 'l' or i % 6 == 2 and tree['k'] == 'd':      # a history of calls on one presync-ed function
             dec, hist = rand_history(rng)
             obs.append(call_history(tree, dec, hist, form=rng.randrange(6), rng=rng))
-    ctx.evals += sum(len(o['hist']) if o['api'] == 'history' else 1 for o in obs)
+    ctx.evals += sum(len(o['hist']) if o['api'] == 'history' else len(o['steps']) if o['api'] == 'session' else 1 for o in obs)
     bad = ctx.validate('Trace_Sync', obs)
     for ln, clause in bad:
         o = obs[ln - 1]
-        report(clause, case_key(o), {'observed': o['out'], 'after_equals_before': o['after'] == o['tree']})
+        report(clause, case_key(o), {'observed': o['out'], 'after_equals_before': o['api'] == 'session' or o['after'] == o['tree']})
     rejected = {ln for ln, _ in bad}
     for k, o in enumerate(obs):
-        if o['api'] == 'history':
+        if o['api'] == 'session':
+            places = [x['n'] for x in leaves(o['heap']['cont']) if x['k'] == 'r']
+            if k + 1 not in rejected and (len(o['steps']) >= 2 or len(set(places)) < len(places) or any(sh != j + 1 for j, sh in enumerate(o['heap']['share']))):
+                ctx.note(('sess', k))
+        elif o['api'] == 'history':
             if k + 1 not in rejected and any(s['op'] == 'call' and s['ov'] != {'join': '-', 'm': '-', 'cols': '-'} for s in o['hist'][:-1]):
                 ctx.note(('hist', k))
         elif k + 1 not in rejected and o['out']['kind'] != 'exc' and (o['out'].get('v') != o['tree']):
@@ -440,6 +631,11 @@ def c2s(ctx, report, n, histories=()):
 def replay(ctx, body):
     """./check C03 --replay <file>: re-run one recorded case and let Trace_Sync judge it"""
     c = body['case']
+    if c['api'] == 'session':
+        o = call_session(c['heap'], c['steps'], form=c.get('form', 0))
+        bad = ctx.validate('Trace_Sync', [o])
+        print(json.dumps({'verdict': bad[0][1] if bad else 'explained by the specification', 'observed': o['out']})[:3000])
+        return 1 if bad else 0
     if c['api'] == 'history':
         o = call_history(c['tree'], c['dec'], c['hist'], form=c.get('form', 0))
         bad = ctx.validate('Trace_Sync', [o])
@@ -465,7 +661,11 @@ def run(ctx):
         ctx.mc('MC_Sync', 'MC_Sync_quick.cfg')
         s2c(ctx, report, ctx.generate('MC_Sync', 'MC_Sync_gen_quick.cfg'), 2500)
         s2c(ctx, report, ctx.generate('MC_Sync', 'MC_Sync_gen_frames.cfg'), 1700)         # frames and column-set shapes
-        c2s(ctx, report, 450, s2c_histories(ctx, ctx.generate('MC_SyncHist', 'MC_SyncHist_gen_quick.cfg'), 300))
+        ctx.mc('MC_SyncSess', 'MC_SyncSess_quick.cfg')
+        hs = s2c_histories(ctx, ctx.generate('MC_SyncHist', 'MC_SyncHist_gen_quick.cfg'), 300)
+        for fam, budget in (('args', 0), ('share', 0), ('frames', 0), ('edit', 500)):          # sessions on one heap of caller-owned objects
+            hs += s2c_sessions(ctx, ctx.generate('MC_SyncSess', 'MC_SyncSess_gen_%s.cfg' % fam), budget)
+        c2s(ctx, report, 450, hs)
     else:
         ctx.mc('MC_Sync', 'MC_Sync_thorough.cfg')
         s2c(ctx, report, ctx.generate('MC_Sync', 'MC_Sync_gen_quick.cfg'), 25000)
@@ -475,6 +675,12 @@ def run(ctx):
         ctx.mc('MC_SyncHist', 'MC_SyncHist_thorough.cfg')
         hs = s2c_histories(ctx, ctx.generate('MC_SyncHist', 'MC_SyncHist_gen_quick.cfg'), 0)
         hs += s2c_histories(ctx, ctx.generate('MC_SyncHist', 'MC_SyncHist_gen_thorough.cfg'), 4000)
+        ctx.mc('MC_SyncSess', 'MC_SyncSess_quick.cfg')
+        ctx.mc('MC_SyncSess', 'MC_SyncSess_thorough.cfg')
+        for fam, budget in (('args', 0), ('share', 0), ('frames', 0), ('edit', 0), ('share2', 3000)):
+            hs += s2c_sessions(ctx, ctx.generate('MC_SyncSess', 'MC_SyncSess_gen_%s.cfg' % fam), budget)
+        # TLC-simulated longer sessions (6 steps: calls of every entry point interleaved with the caller's in-place edits)
+        hs += s2c_sessions(ctx, ctx.generate('MC_SyncSess', 'MC_SyncSess_gen_mix.cfg', simulate=3000, depth=7, seed=ctx.seed + 1, workers=1), 0)
         c2s(ctx, report, 6000, hs)
     ctx.extra['violation_signatures'] = report.summary()
     ctx.assumptions += [
